@@ -16,6 +16,7 @@ import (
 	"sort"
 	"strings"
 	realsync "sync"
+	"sync/atomic"
 	"unsafe"
 )
 
@@ -88,7 +89,9 @@ type G struct {
 	depth  int    // nesting of configured functions running on it
 	curOp  *POp
 	panicV any
-	passed int // preemption gates passed (position in the straight-line program of MockImpl)
+	passed int  // preemption gates passed (position in the straight-line program of MockImpl)
+	stuck  bool // never came back from its last resume (see concRunner.resumeG)
+	goid   int64
 }
 
 // Event is one line of a schedule's log.
@@ -130,6 +133,37 @@ type Sched struct {
 type abortSentinel struct{}
 
 var theSched *Sched
+
+// Goroutines that were abandoned because they blocked on something the
+// scheduler does not control (see concRunner.resumeG). Should one of them wake
+// up later (what it waited for was released while its run was unwound), it must
+// not touch the scheduler of a later run: it parks for good at its next gate.
+var (
+	nAbandoned  int32
+	abandonedMu realsync.Mutex
+	abandonedG  = map[int64]bool{}
+)
+
+func abandon(id int64) {
+	abandonedMu.Lock()
+	abandonedG[id] = true
+	abandonedMu.Unlock()
+	atomic.AddInt32(&nAbandoned, 1)
+}
+
+// current returns the scheduler for the calling goroutine (nil outside a run).
+func current() *Sched {
+	if atomic.LoadInt32(&nAbandoned) > 0 {
+		id := goid()
+		abandonedMu.Lock()
+		gone := abandonedG[id]
+		abandonedMu.Unlock()
+		if gone {
+			select {}
+		}
+	}
+	return theSched
+}
 
 func (s *Sched) lockFor(p unsafe.Pointer) *lockState {
 	l := s.locks[p]
@@ -341,7 +375,7 @@ func (s *Sched) stateKey() string {
 // ---- API used by rewritten generated code ---------------------------------
 
 func (m *RWMutex) Lock() {
-	s := theSched
+	s := current()
 	if s == nil {
 		return
 	}
@@ -351,7 +385,7 @@ func (m *RWMutex) Lock() {
 }
 
 func (m *RWMutex) Unlock() {
-	s := theSched
+	s := current()
 	if s == nil {
 		return
 	}
@@ -359,7 +393,7 @@ func (m *RWMutex) Unlock() {
 }
 
 func (m *RWMutex) RLock() {
-	s := theSched
+	s := current()
 	if s == nil {
 		return
 	}
@@ -367,7 +401,7 @@ func (m *RWMutex) RLock() {
 }
 
 func (m *RWMutex) RUnlock() {
-	s := theSched
+	s := current()
 	if s == nil {
 		return
 	}
@@ -384,7 +418,7 @@ func (r rlocker) Lock()   { r.m.RLock() }
 func (r rlocker) Unlock() { r.m.RUnlock() }
 
 func (m *Mutex) Lock() {
-	s := theSched
+	s := current()
 	if s == nil {
 		return
 	}
@@ -392,7 +426,7 @@ func (m *Mutex) Lock() {
 }
 
 func (m *Mutex) Unlock() {
-	s := theSched
+	s := current()
 	if s == nil {
 		return
 	}
@@ -403,7 +437,7 @@ func (m *Mutex) TryLock() bool { panic("mockdrv: TryLock is not modelled") }
 
 // Yield marks an access to the call records: kind "r" or "w", p the address.
 func Yield(kind string, p any) {
-	s := theSched
+	s := current()
 	if s == nil {
 		return
 	}
